@@ -155,6 +155,7 @@ def run_case(case):
         "replies": replies,
         "trace": list(world.trace),
         "answers": list(world.answers),
+        "runaway": world.runaway,
         "issue_after": bool(v2._comm_issue),
         "pin_after": None if pin is None else (pin._pin, pin._needs_change),
     }
